@@ -8,6 +8,8 @@ Never run while another check is using /repo.
 import json, subprocess, sys, os, glob
 
 ROOT = "/verif"
+if subprocess.run("git -C /repo status --porcelain", shell=True, capture_output=True, text=True).stdout.strip():
+    sys.exit("REFUSING: /repo has uncommitted changes (they would be lost by the clean-up reset)")
 only = sys.argv[1:]
 rows = []
 for d in sorted(glob.glob(f"{ROOT}/seeded/*/")):
